@@ -35,7 +35,7 @@ is a fixed function of (check, family); the site is ``Msg.Block.Var[ctx]:<where>
      and all 4^3 orders of three assignments, checked after every step and only after the last; required each time:
      block[v] == the integer, deserialize_var(v) == decoding of the NEW integer (object; pod of the stored raw),
      serialize_var(v, deserialize_var(v)) leaves the raw unchanged (cache-invalidation, sites :assign:<style> /
-     :seq:<s1>><s2>><s3>:<each|end> + :raw|:stale-object|:stale-pod|:writeback).
+     :seq:<style>-after-<previous style>:<each|end> + :raw|:stale-object|:stale-pod|:writeback; the witness holds the sequence).
  (f) date entries (adapter class DateAdapter) under process TZ in {UTC, America/Los_Angeles, Europe/London,
      Australia/Lord_Howe}, TZ switched with os.environ+time.tzset() only inside dedicated forked workers (hmc.subfieldgen
      .tz_map; replay of a TZ witness forks as well).  Input families: 'boundary' = the int alphabet (date-roundtrip /
@@ -810,7 +810,7 @@ def _make_assigned(ent: Entry, style: str, n: int, expected_obj: Any):
     raise ValueError(style)
 
 
-def run_assign_sequence(part: Part, ent: Entry, ctxval, init: int, steps: List[Tuple[str, int]], mode: str, site: str) -> bool:
+def run_assign_sequence(part: Part, ent: Entry, ctxval, init: int, steps: List[Tuple[str, int]], mode: str, site_base: str) -> bool:
     """Prime the cache on raw ``init``; apply the assignments; after each (mode 'each') or only after the last one
     (mode 'end') require: stored raw == the integer assigned, deserialize_var == decoding of that integer (object form;
     the pod decoding of the stored raw as well), serialize_var(deserialize_var()) leaves the raw value unchanged."""
@@ -824,12 +824,16 @@ def run_assign_sequence(part: Part, ent: Entry, ctxval, init: int, steps: List[T
     blk = make_block(ent, ctxval, init)
     blk.deserialize_var(var)
     ok = True
+    site = site_base
     for i, (style, n) in enumerate(steps):
         exp = dec(n)
         blk[var] = _make_assigned(ent, style, n, exp)
         if mode == "end" and i + 1 < len(steps):
             continue
         where = f"step {i + 1} ({style} {n}) of init={init} {steps}"
+        if len(steps) > 1:
+            # name the failing step's style and its predecessor's, not the whole sequence (which is in the witness)
+            site = f"{site_base}:{style}-after-{steps[i - 1][0] if i else 'init'}:{mode}"
         raw_now = blk[var]
         rt_ok = _same_raw(ser.serialize(fresh, exp), n)  # family (a) judges the codec; here only the cache protocol
         if style == "pretty" and not rt_ok:
@@ -887,7 +891,7 @@ def unit_assign(ent: Entry) -> dict:
     for combo in itertools.product(styles, repeat=3):
         for mode in ("each", "end"):
             acc.evals += 1
-            if run_assign_sequence(part, ent, ctxval, init, list(zip(combo, trip)), mode, f"{base}:seq:{'>'.join(combo)}:{mode}"):
+            if run_assign_sequence(part, ent, ctxval, init, list(zip(combo, trip)), mode, f"{base}:seq"):
                 acc.nontrivial((ent.idx, "seq", combo, mode))
     acc.outcome((ent.idx, "assign", len(vals), len(styles)))
     part.count("assign_units")
